@@ -56,6 +56,7 @@ func (n *Net) SetCut(from, to string, v bool) {
 	} else {
 		delete(n.cut, [2]string{from, to})
 	}
+	n.w.Log(Ev{K: "x.cut", S: from, X: to, A: b2u(v)})
 	n.mu.Unlock()
 }
 
@@ -64,7 +65,9 @@ func (n *Net) CutMany(pairs [][2]string) {
 	n.mu.Lock()
 	for _, p := range pairs {
 		n.cut[p] = true
+		n.w.Log(Ev{K: "x.cut", S: p[0], X: p[1], A: 1})
 	}
+	n.w.Log(Ev{K: "x.cutdone"})
 	n.mu.Unlock()
 }
 
@@ -74,6 +77,7 @@ func (n *Net) Heal() {
 	for _, l := range n.link {
 		l.quar = false
 	}
+	n.w.Log(Ev{K: "x.heal"})
 	n.mu.Unlock()
 }
 
